@@ -523,3 +523,14 @@ Theorem C06_smt_sext_bits n k x i : 0 < n -> 0 <= k -> 0 <= x < 2 ^ n -> 0 <= i 
   Z.testbit (bvsext n k x) i = if i <? n then Z.testbit x i else Z.testbit x (n - 1).
 Proof. exact (smt_sext_bits n k x i). Qed.
 Print Assumptions C06_smt_sext_bits.
+
+(* bvneg is two's complement; bvnot is xor with the all-ones vector; at width 256 the SMT-LIB reading and the
+   EVM spec agree on NOT and on the signed value of a word *)
+Theorem C06_smt_neg_not n x : 0 <= n ->
+  bvneg n x = bvadd n (bvnot n x) 1 /\ (0 <= x < 2 ^ n -> bvnot n x = Z.lxor x (Z.ones n)).
+Proof. intros Hn; split; [exact (smt_neg_is_not_plus_one n x Hn) | exact (smt_not_is_xor_ones n x Hn)]. Qed.
+Print Assumptions C06_smt_neg_not.
+
+Theorem C06_smt_evm_agree_256 x : bvnot 256 x = evm_not x /\ bvsigned 256 x = Word.to_signed x.
+Proof. exact (smt_evm_agree_256 x). Qed.
+Print Assumptions C06_smt_evm_agree_256.
